@@ -29,7 +29,7 @@ package facproof
 //@   ensures [C10.encode] bytes(result[0]) == be(val(pf.P)) && bytes(result[1]) == be(val(pf.Q)) && bytes(result[2]) == be(val(pf.A)) && bytes(result[3]) == be(val(pf.B)) && bytes(result[4]) == be(val(pf.T)) && bytes(result[5]) == be(val(pf.Sigma)) && bytes(result[6]) == be(val(pf.Z1)) && bytes(result[7]) == be(val(pf.Z2)) && bytes(result[8]) == be(val(pf.W1)) && bytes(result[9]) == be(val(pf.W2)) && bytes(result[10]) == be(val(pf.V))
 
 //@ func (*ProofFac).Verify
-//@   props C06 C11 C12 C05
+//@   props C06 C11 C12 C05 C10
 //@   requires (ec != nil ==> okCurve(ec)) && len(Session) <= 1048576
 //@   requires pf != nil ==> (wfFac(pf) ==> nnFac(pf))
 //@   ensures result ==> (pf != nil && wfFac(pf) && N0 != nil && NCap != nil && s != nil && t != nil && val(N0) > 0 && val(NCap) > 0)
@@ -37,6 +37,7 @@ package facproof
 //@   ensures [C12.equation-1] result ==> (powmod(val(s), val(pf.Z1), val(NCap)) * powmod(val(t), val(pf.W1), val(NCap))) % val(NCap) == (val(pf.A) * powmod(val(pf.P), chalFac(Session, ec, val(N0), val(NCap), val(s), val(t), val(pf.P), val(pf.Q), val(pf.A), val(pf.B), val(pf.T), val(pf.Sigma)), val(NCap))) % val(NCap)
 //@   ensures [C12.equation-2] result ==> (powmod(val(s), val(pf.Z2), val(NCap)) * powmod(val(t), val(pf.W2), val(NCap))) % val(NCap) == (val(pf.B) * powmod(val(pf.Q), chalFac(Session, ec, val(N0), val(NCap), val(s), val(t), val(pf.P), val(pf.Q), val(pf.A), val(pf.B), val(pf.T), val(pf.Sigma)), val(NCap))) % val(NCap)
 //@   ensures [C12.equation-3] result ==> (powmod(val(pf.Q), val(pf.Z1), val(NCap)) * powmod(val(t), val(pf.V), val(NCap))) % val(NCap) == (val(pf.T) * powmod((powmod(val(s), val(N0), val(NCap)) * powmod(val(t), val(pf.Sigma), val(NCap))) % val(NCap), chalFac(Session, ec, val(N0), val(NCap), val(s), val(t), val(pf.P), val(pf.Q), val(pf.A), val(pf.B), val(pf.T), val(pf.Sigma)), val(NCap))) % val(NCap)
+//@   ensures [C10.accepts-whenever-every-check-passes] (pf != nil && wfFac(pf) && ec != nil && N0 != nil && NCap != nil && s != nil && t != nil && val(N0) > 0 && val(NCap) > 0 && ((0 <= val(pf.Z1) && val(pf.Z1) < q3f(ec) * isqrt(val(N0)) && 0 <= val(pf.Z2) && val(pf.Z2) < q3f(ec) * isqrt(val(N0)))) && ((powmod(val(s), val(pf.Z1), val(NCap)) * powmod(val(t), val(pf.W1), val(NCap))) % val(NCap) == (val(pf.A) * powmod(val(pf.P), chalFac(Session, ec, val(N0), val(NCap), val(s), val(t), val(pf.P), val(pf.Q), val(pf.A), val(pf.B), val(pf.T), val(pf.Sigma)), val(NCap))) % val(NCap)) && ((powmod(val(s), val(pf.Z2), val(NCap)) * powmod(val(t), val(pf.W2), val(NCap))) % val(NCap) == (val(pf.B) * powmod(val(pf.Q), chalFac(Session, ec, val(N0), val(NCap), val(s), val(t), val(pf.P), val(pf.Q), val(pf.A), val(pf.B), val(pf.T), val(pf.Sigma)), val(NCap))) % val(NCap)) && ((powmod(val(pf.Q), val(pf.Z1), val(NCap)) * powmod(val(t), val(pf.V), val(NCap))) % val(NCap) == (val(pf.T) * powmod((powmod(val(s), val(N0), val(NCap)) * powmod(val(t), val(pf.Sigma), val(NCap))) % val(NCap), chalFac(Session, ec, val(N0), val(NCap), val(s), val(t), val(pf.P), val(pf.Q), val(pf.A), val(pf.B), val(pf.T), val(pf.Sigma)), val(NCap))) % val(NCap))) ==> result
 
 //@ func NewProof
 //@   props C06 C10 C12
